@@ -299,8 +299,63 @@ def replay_set_delayed(r):
     return bool(bad), {'function': 'LatticeColumn.set_delayed', 'given_round': d, 'failed': bad}
 
 
+def replay_widen(r):
+    """real SimpleMatcher on an empty planar map whose `match` is shadowed by a recorder (instance attribute): the model's
+    widths, the clauses of vc_increase_width evaluated on what the real increase_max_lattice_width did"""
+    from leuvenmapmatching.matcher.simple import SimpleMatcher
+    from leuvenmapmatching.map.inmem import InMemMap
+    wn = max(1, min(50, int(val(r.model, 'W_new', 3))))
+    has_old = 'width->width' in r.ob.name
+    wo = max(1, min(wn, int(val(r.model, 'W_old', 1)))) if has_old else None
+    uniq = bool(val(r.model, 'unique', False))
+    m = SimpleMatcher(InMemMap('replay', use_latlon=False), max_lattice_width=wo)
+    trace, lattice, tq, ret = [(0.0, 0.0), (1.0, 0.0)], {'sentinel': 1}, (lambda it, **kw: it), object()
+    m.path, m.lattice, m.expand_now, m.early_stop_idx = trace, lattice, 4, None
+    calls = []
+
+    def rec(*a, **kw):
+        b = {'unique': False, 'tqdm': None, 'expand': False}
+        b.update(dict(zip(('path', 'unique', 'tqdm', 'expand'), a)))
+        b.update(kw)
+        calls.append((b, dict(width=m.max_lattice_width, path=m.path, lattice=m.lattice, expand_now=m.expand_now, esi=m.early_stop_idx)))
+        return ret
+    m.match = rec
+    before = {k: v for k, v in m.__dict__.items() if k not in ('max_lattice_width', 'match')}
+    try:
+        res = m.increase_max_lattice_width(wn, unique=uniq, tqdm=tq)
+    except Exception as e:
+        return True, {'function': 'BaseMatcher.increase_max_lattice_width', 'old_width': wo, 'new_width': wn, 'failed': [f"raised {e!r}"]}
+    bad = []
+    if len(calls) != 1:
+        bad.append(f"match called {len(calls)} times")
+    for b, s in calls[:1]:
+        if s['width'] != wn:
+            bad.append(f"width at the time match is called: {s['width']}, asked for {wn} (old {wo})")
+        if b.get('path') is not trace or s['path'] is not trace:
+            bad.append("match not called with the stored trace")
+        if b.get('expand') is not True:
+            bad.append(f"match called with expand={b.get('expand')!r}: a fresh match, the lattice is rebuilt with the old candidates gone")
+        if b.get('unique') is not uniq:
+            bad.append("unique not handed on")
+        if b.get('tqdm') is not tq:
+            bad.append("tqdm not handed on")
+        if s['lattice'] is not lattice or s['expand_now'] != 4 or s['esi'] is not None:
+            bad.append(f"lattice / round counter / early-stop index touched before match (round {s['expand_now']})")
+        if res is not ret:
+            bad.append("result is not what match returned")
+    if m.max_lattice_width != wn:
+        bad.append(f"width after the call: {m.max_lattice_width}, asked for {wn} (old {wo})")
+    after = {k: v for k, v in m.__dict__.items() if k not in ('max_lattice_width', 'match')}
+    changed = sorted(k for k in before if k not in after or (after[k] is not before[k] and after[k] != before[k]))
+    if changed:
+        bad.append("another attribute of the matcher was written: " + ", ".join(changed))
+    return bool(bad), {'function': 'BaseMatcher.increase_max_lattice_width', 'old_width': wo, 'new_width': wn, 'unique': uniq, 'failed': bad}
+
+
 def replayer(r):
     n = r.ob.name
+    if n.startswith('BaseMatcher.increase_max_lattice_width'):
+        return replay_widen(r)
     if n.startswith('LatticeColumn.set_delayed'):
         return replay_set_delayed(r)
     if n.startswith('LatticeColumn.upsert'):
